@@ -503,7 +503,7 @@ static int replay(const char *path, uint64_t seed, int n)
     }
     out["valid"]     = valid;
     out["unchanged"] = unchanged;
-    std::cout << out.dump() << "\n";
+    std::cout << out.dump() << std::endl;
   }
   current_case().clear();
   std::cout << "{\"done\":" << cases.size() << "}" << std::endl;
@@ -661,7 +661,7 @@ static int record(uint64_t seed, long n)
       e["e"]    = "X";
       e["toks"] = tokens(h);
       e["raw"]  = esc(h);
-      std::cout << e.dump() << "\n";
+      std::cout << e.dump() << std::endl;
     }
     else
     {
@@ -683,7 +683,7 @@ static int record(uint64_t seed, long n)
                 {"fl", int(fl)}, {"nts", int(ts.size())}, {"tp", tp ? tokens(*tp) : json::array()},
                 {"tsw", tsw != nullptr && !tsw->empty()}, {"x", obs_event(o, has ? ts : Entries())},
                 {"raw", tp ? esc(*tp) : ""}};
-      std::cout << e.dump() << "\n";
+      std::cout << e.dump() << std::endl;
     }
   }
   current_case().clear();
